@@ -173,6 +173,11 @@ func (n *Net) coreOn(ctx int, loc common.Location, db ethdb.Database) (*core.Cor
 	pow := params.PowConfig{PowMode: params.ModeNormal, DurationLimit: big.NewInt(5), GasCeil: o.GasCeil,
 		MinDifficulty: big.NewInt(o.GenesisDifficulty), NodeLocation: loc, WorkShareThreshold: 3, GenAllocs: o.GenAllocs}
 	eng := []consensus.Engine{blake3pow.New(pow, nil, false, log.Global)}
+	if o.IndexAddressUtxos {
+		// BodyDb.WriteBlock indexes the engine list with types.Kawpow (= 1) when address indexing is on; a blake3 node
+		// (quai/backend.go: one engine) would panic there.  Outside the listed properties: give the slot an engine.
+		eng = append(eng, blake3pow.New(pow, nil, false, log.Global))
+	}
 	minerCfg := &core.Config{ExtraData: []byte("verif"), GasCeil: o.GasCeil, Recommit: time.Hour,
 		MinerPreference: o.MinerPreference, CoinbaseLockup: o.LockupByte}
 	if ctx == Zone {
